@@ -186,6 +186,35 @@ def run_proc(spec, res):
                 res.violation('iteration-after-early-stop-fails', case,
                               {'second': second}, sig=sig)
     run_proc_slow(spec, res)
+    run_proc_two_iterators(spec, res)
+
+
+def run_proc_two_iterators(spec, res):
+    """Two iterations of one process-pool prefetch alive; closing the first
+    (while the second has tasks in flight) does not stop the second."""
+    from .. import procpool as pp
+    be = spec['backend']
+    for entry in ('pft', 'parmap'):
+        sc = {'entry': entry, 'n': 7, 'b': 3, 'w': 2, 'backend': be, 'delays': [0.15],
+              'two_iterators_one_closed': True}
+        r = pp.run_case(sc, timeout=60)
+        case = {'scenario': sc}
+        sig = {'entry': entry, 'backend': be, 'harness': 'process-pool',
+               'stop': 'close-one-of-two'}
+        res.case(('proc-two', be, entry), True)
+        if r.get('timeout'):
+            res.violation('hang-process-pool', case, {'second_iterator': 'never finished'},
+                          sig=sig)
+            continue
+        if r.get('crash'):
+            res.inconclusive_because(f'process-pool case crashed: {str(r)[:300]}')
+            continue
+        res.count('process_pool_executions')
+        res.count('proc_two_iterators_one_closed_checks')
+        second = r['second']
+        if pp.delivered(second) != [('f', i) for i in range(7)] or \
+                second['outcome'] != 'exhausted':
+            res.violation('iteration-after-early-stop-fails', case, {'second': second}, sig=sig)
 
 
 def run_proc_slow(spec, res):
